@@ -38,7 +38,7 @@ func TestMain(m *testing.M) {
 		os.Exit(worker(p))
 	}
 	vk.Main(m, "C08", "exploration",
-		"packages = (a) gosub programs split over 1–4 .xgo and 0–2 .go files (types, their methods and their users in different files, an init function per file, overload declarations `func f = (…)` whose candidates live in other files, types and functions that only a .go file declares), (b) xsugar class programs (1–2 normal .gox classes + .xgo users) and overload/collection programs with a .go helper file, (c) error mutants of (a)/(b): dropped declarations and injected ill-typed declarations in several files, so that several errors are reported. Oracle (metamorphic): the same sources are compiled K=12 times in one process (fresh parse; directory listing permuted; the ast.Package Files/GoFiles maps rebuilt in a permuted insertion order) and once in each of 3 fresh worker processes (per case for a drawn sample and for replays; for every case of the run in 3 batch workers): the bytes written by WriteTo and the error list (order included) must be identical. A package the parser rejects is outside the statement (parse errors are reported in listing order by design). Non-trivial = at least 2 files and a cross-file reference, or at least 2 reported errors; distinct = hash of the sources")
+		"packages = (a) gosub programs split over 1–4 .xgo and 0–2 .go files (types, their methods and their users in different files, an init function per file, overload declarations `func f = (…)` whose candidates live in other files, types and functions that only a .go file declares), (b) xsugar class programs (1–2 normal .gox classes + .xgo users) and overload/collection programs with a .go helper file, (c) error mutants of (a)/(b): dropped declarations and injected ill-typed declarations in several files, so that several errors are reported, (d) project packages: project class files and work class files of 1-3 of the class frameworks of the repository's test packages (spx .tgmx/.tspx, spx2 .t2gmx/.t2spx, spx4 .t4gmx/.t4spx, mcp _mcp.gox/_tool.gox) with 0-2 project files per framework, fields, methods and main bodies, optionally a plain .xgo and .go file and ill-typed methods in several files. Oracle (metamorphic): the same sources are compiled K=12 times in one process (fresh parse; directory listing permuted; the ast.Package Files/GoFiles maps rebuilt in a permuted insertion order) and once in each of 3 fresh worker processes (per case for a drawn sample and for replays; for every case of the run in 3 batch workers): the bytes written by WriteTo and the error list (order included) must be identical. A package the parser rejects is outside the statement (parse errors are reported in listing order by design). Non-trivial = at least 2 files and a cross-file reference (two class files of a framework count as one), or at least 2 reported errors; distinct = hash of the sources")
 }
 
 type SrcFile struct {
@@ -129,7 +129,7 @@ func compileOnce(files []SrcFile, listing, insert []int) (o outcome) {
 			o.Errs = append(o.Errs, fmt.Sprintf("panic: %v", p))
 		}
 	}()
-	pkgs, err := parser.ParseFSDir(fset, memfs.New(map[string][]string{"/foo": names}, data), "/foo", parser.Config{Mode: parser.ParseComments})
+	pkgs, err := parser.ParseFSDir(fset, memfs.New(map[string][]string{"/foo": names}, data), "/foo", parser.Config{Mode: parser.ParseComments, ClassKind: classKind})
 	if err != nil {
 		o.ParseErr = err.Error()
 		return
@@ -182,7 +182,46 @@ func compileOnce(files []SrcFile, listing, insert []int) (o outcome) {
 	return
 }
 
-func lookupClass(ext string) (c *modfile.Project, ok bool) { return nil, false }
+// lookupClass knows the class frameworks of the repository's own test packages (cl/internal/spx,
+// spx2, spx4, mcp): project class files (.tgmx, .t2gmx, .t4gmx, main_mcp.gox) and their work classes.
+func lookupClass(ext string) (c *modfile.Project, ok bool) {
+	switch ext {
+	case ".tgmx", ".tspx":
+		return &modfile.Project{
+			Ext: ".tgmx", Class: "*MyGame",
+			Works:    []*modfile.Class{{Ext: ".tspx", Class: "Sprite"}},
+			PkgPaths: []string{"github.com/goplus/xgo/cl/internal/spx", "math"}}, true
+	case ".t2gmx", ".t2spx":
+		return &modfile.Project{
+			Ext: ".t2gmx", Class: "Game",
+			Works:    []*modfile.Class{{Ext: ".t2spx", Class: "Sprite"}},
+			PkgPaths: []string{"github.com/goplus/xgo/cl/internal/spx2"}}, true
+	case ".t4gmx", ".t4spx":
+		return &modfile.Project{
+			Ext: ".t4gmx", Class: "*MyGame",
+			Works:    []*modfile.Class{{Ext: ".t4spx", Class: "Sprite"}},
+			PkgPaths: []string{"github.com/goplus/xgo/cl/internal/spx4", "math"}}, true
+	case "_mcp.gox", "_tool.gox", "_prompt.gox", "_res.gox":
+		return &modfile.Project{
+			Ext: "_mcp.gox", Class: "Game",
+			Works: []*modfile.Class{
+				{Ext: "_tool.gox", Class: "Tool", Proto: "ToolProto", Prefix: "Tool_"},
+				{Ext: "_prompt.gox", Class: "Prompt", Proto: "PromptProto", Embedded: true},
+				{Ext: "_res.gox", Class: "Resource", Proto: "ResourceProto"},
+			},
+			PkgPaths: []string{"github.com/goplus/xgo/cl/internal/mcp"}}, true
+	}
+	return
+}
+
+func classKind(fname string) (isProj bool, ok bool) {
+	ext := modfile.ClassExt(fname)
+	c, ok := lookupClass(ext)
+	if ok {
+		isProj = c.IsProj(ext, fname)
+	}
+	return
+}
 
 func identity(n int) []int { return perm(n, 0, 0) }
 
@@ -376,6 +415,17 @@ func determinism(c Case) (*vk.Verdict, info) {
 // crossFile reports whether a file uses a top-level name another file declares.
 func crossFile(files []SrcFile) bool {
 	_, fset := xcl.Importer()
+	// class files of a framework refer to each other by construction (a work class embeds the
+	// project class, the project's Main creates the work classes)
+	nclass := 0
+	for _, f := range files {
+		if _, ok := classKind(f.Name); ok {
+			nclass++
+		}
+	}
+	if nclass >= 2 {
+		return true
+	}
 	decl := map[string]int{}
 	var trees []*ast.File
 	for i, f := range files {
@@ -489,6 +539,15 @@ func run(t failer, c Case, class string) {
 		vk.R.Class("errors=1")
 	default:
 		vk.R.Class("errors>=2")
+	}
+	if strings.HasPrefix(class, "src=project") {
+		nproj := 0
+		for _, f := range c.Files {
+			if isProj, ok := classKind(f.Name); ok && isProj {
+				nproj++
+			}
+		}
+		vk.R.Class(fmt.Sprintf("project: project-files=%d compiles=%v", nproj, in.nerr == 0))
 	}
 	if in.cross {
 		vk.R.Class("cross-file-reference")
@@ -635,6 +694,106 @@ func classProgram(t *rapid.T, mutate bool) Case {
 	return c
 }
 
+// projectProgram is a package of project class files and work class files of 1-3 class frameworks
+// (the repository's test frameworks spx, spx2, spx4 and mcp), optionally with a plain .xgo and .go
+// file. Packages with several frameworks, several project files or no project file are legal inputs
+// too: whatever the compiler answers has to be the same answer every time.
+func projectProgram(t *rapid.T, mutate bool) Case {
+	type fw struct{ proj, work string }
+	fws := []fw{{".tgmx", ".tspx"}, {".t2gmx", ".t2spx"}, {".t4gmx", ".t4spx"}, {"_mcp.gox", "_tool.gox"}}
+	nfw := rapid.SampledFrom([]int{1, 1, 2, 2, 2, 3}).Draw(t, "frameworks")
+	picked := rapid.Permutation(fws).Draw(t, "fw")[:nfw]
+	projNames := []string{"Alpha", "Beta", "Gamma", "main", "Zeta", "index"}
+	workNames := []string{"Kai", "Lee", "Mo", "Nu", "bar", "Abe"}
+	var c Case
+	used := map[string]bool{}
+	fn := 0
+	funcs := func(n int) string {
+		var b strings.Builder
+		for i := 0; i < n; i++ {
+			fn++
+			switch rapid.IntRange(0, 2).Draw(t, "fshape") {
+			case 0:
+				fmt.Fprintf(&b, "func f%d() {\n\tprintln \"f%d\"\n}\n\n", fn, fn)
+			case 1:
+				fmt.Fprintf(&b, "func g%d(a int) int {\n\treturn a + %d\n}\n\n", fn, fn)
+			default:
+				fmt.Fprintf(&b, "func h%d(s string) (string, int) {\n\treturn s + \"!\", len(s)\n}\n\n", fn)
+			}
+		}
+		return b.String()
+	}
+	fields := func() string {
+		if !rapid.Bool().Draw(t, "fields") {
+			return ""
+		}
+		fn++
+		return fmt.Sprintf("var (\n\tcnt%d int\n\ttag%d string\n)\n\n", fn, fn)
+	}
+	for _, f := range picked {
+		nproj := rapid.SampledFrom([]int{0, 1, 1, 1, 1, 2}).Draw(t, "nproj")
+		if f.proj == "_mcp.gox" && nproj > 1 {
+			nproj = 1
+		}
+		for i := 0; i < nproj; i++ {
+			base := rapid.SampledFrom(projNames).Draw(t, "projname")
+			name := base + f.proj
+			if used[strings.ToLower(base)] {
+				continue
+			}
+			used[strings.ToLower(base)] = true
+			src := fields() + funcs(rapid.IntRange(0, 3).Draw(t, "nfuncs"))
+			if rapid.Bool().Draw(t, "mainbody") {
+				src += "println \"proj " + base + "\"\n"
+			}
+			c.Files = append(c.Files, SrcFile{name, src})
+		}
+		for i, nwork := 0, rapid.IntRange(0, 3).Draw(t, "nwork"); i < nwork; i++ {
+			base := rapid.SampledFrom(workNames).Draw(t, "workname")
+			if used[strings.ToLower(base)] {
+				continue
+			}
+			used[strings.ToLower(base)] = true
+			src := fields() + funcs(rapid.IntRange(0, 2).Draw(t, "nfuncs"))
+			if f.work == "_tool.gox" {
+				src += "return -1\n"
+			} else if rapid.Bool().Draw(t, "mainbody") {
+				src += "println \"work " + base + "\"\n"
+			}
+			c.Files = append(c.Files, SrcFile{base + f.work, src})
+		}
+	}
+	if rapid.Bool().Draw(t, "plain-xgo") {
+		c.Files = append(c.Files, SrcFile{"util.xgo", "func util(a int) int {\n\treturn a * 2\n}\n"})
+	}
+	if rapid.Bool().Draw(t, "go-helper") {
+		c.Files = append(c.Files, SrcFile{"helper.go", "package main\n\nfunc goHelper(a int) int {\n\treturn a + 1\n}\n"})
+	}
+	if mutate {
+		// ill-typed methods in several class files: several errors, from several files
+		for i := range c.Files {
+			if strings.HasSuffix(c.Files[i].Name, ".go") || !rapid.Bool().Draw(t, "break") {
+				continue
+			}
+			fn++
+			s := strings.ReplaceAll(illTyped[rapid.IntRange(0, len(illTyped)-1).Draw(t, "bad")], "%d", fmt.Sprint(300+fn))
+			if !strings.HasPrefix(s, "func ") {
+				continue
+			}
+			// functions go before the main body of a class file
+			c.Files[i].Src = s + "\n\n" + c.Files[i].Src
+			if strings.HasPrefix(c.Files[i].Src, s+"\n\nvar (") { // the var block has to stay first
+				c.Files[i].Src = strings.TrimPrefix(c.Files[i].Src, s+"\n\n")
+			}
+		}
+	}
+	if len(c.Files) == 0 {
+		c.Files = append(c.Files, SrcFile{"Kai.tspx", "println \"kai\"\n"})
+	}
+	c.Files = sorted(c.Files)
+	return c
+}
+
 // sugarProgram is a single-file xsugar program plus a Go helper file.
 func sugarProgram(t *rapid.T) Case {
 	g := &xsugar.G{T: t, Flags: map[string]bool{}}
@@ -658,7 +817,11 @@ func sugarProgram(t *rapid.T) Case {
 func drawCase(t *rapid.T) (Case, string) {
 	var c Case
 	class := ""
-	switch rapid.IntRange(0, 9).Draw(t, "kind") {
+	switch rapid.IntRange(0, 12).Draw(t, "kind") {
+	case 10, 11:
+		c, class = projectProgram(t, false), "src=project-classes"
+	case 12:
+		c, class = projectProgram(t, true), "src=project-classes-errors"
 	case 0, 1, 2:
 		c, class = splitProgram(t, false), "src=gosub-split"
 	case 3, 4:
